@@ -78,6 +78,36 @@ pub fn stir(d: u64) -> u64 {
     d ^ mixer
 }
 
+/// Pool content p0 such that the collection that starts at reading `offset` of `script` with
+/// `rounds` rounds returns exactly `want` (in the model). The collection is affine in the pool:
+/// result = A·p0 ^ c; A and c are read off the model on the 64 basis pools and on 0.
+pub fn pool_for_result(script: &Script, offset: usize, rounds: u32, want: u64, budget: usize) -> Option<u64> {
+    use crate::gf2::{Bits, Matrix};
+    let run = |p0: u64| -> Option<u64> {
+        let mut m = Model::new(script.clone());
+        m.reads = offset;
+        m.rounds = rounds;
+        m.pool = p0;
+        m.collect(budget)
+    };
+    let c = run(0)?;
+    let mut cols = Vec::with_capacity(64);
+    for i in 0..64 {
+        let mut b = Bits::ZERO;
+        b.0[0] = run(1u64 << i)? ^ c;
+        cols.push(b);
+    }
+    let inv = Matrix { n: 64, cols }.inverse()?;
+    let mut t = Bits::ZERO;
+    t.0[0] = want ^ c;
+    let p0 = inv.apply(&t).0[0];
+    if run(p0)? == want {
+        Some(p0)
+    } else {
+        None
+    }
+}
+
 impl Model {
     pub fn new(script: Script) -> Model {
         Model { script, reads: 0, pool: 0, rounds: 64, half: false, stuck_seen: 0, measurements: 0 }
